@@ -220,4 +220,79 @@ class C19f(Obligation):
             ctx.check(ctx.iff(f.tag in loaded, is_named), 'a file named like the search is (also) reported as a module')
 
 
-OBLIGATIONS = [C19a, C19f]
+from jedi import file_io as jfile_io  # noqa: E402
+from jedi.api import helpers as jhelpers  # noqa: E402
+
+
+class C19b(Obligation):
+    id = 'C19.b'
+    title = 'FolderIO.walk translates the caller\'s pruning of the folder list into os.walk\'s dirs, exactly and in order'
+    pattern = 'P3 (os.walk is a stub generator that exposes its dirs list; which folders the caller removes is symbolic)'
+    assumptions = ('one directory level with n<=4 sub-folders; the caller removes a symbolic subset in place '
+                   '(slice assignment, as recurse_find_python_folders_and_files does) or reorders nothing',)
+
+    def configs(self, tier):
+        return [dict(n=n) for n in (0, 1, 2, 3, 4)]
+
+    def scenario(self, ctx, cfg):
+        n = cfg['n']
+        names = ['sub%d' % i for i in range(n)]
+        dirs = list(names)
+        after = []
+
+        def fake_walk(path):
+            yield path, dirs, ['a.py']
+            after.append(list(dirs))
+        ctx.patch(jfile_io.os, 'walk', fake_walk)
+        keep = [ctx.flag('keep_%s' % nm) for nm in names]
+        ctx.int('unused')
+        folder = jfile_io.FolderIO('/root')
+        ctx.force(jfile_io.FolderIO.walk)
+
+        def drive():
+            seen = []
+            for root_io, folder_ios, file_ios in folder.walk():
+                seen.append(([str(f.path) for f in folder_ios], [str(f.path) for f in file_ios]))
+                folder_ios[:] = [f for i, f in enumerate(folder_ios) if keep[i]]
+            return seen
+        out = ctx.call(drive)
+        ctx.check(out.exc is None, 'walking never raises')
+        if out.exc is not None:
+            return
+        ctx.check(out.value == [(['/root/' + nm for nm in names], ['/root/a.py'])], 'one step listing every sub-folder and file')
+        expected = [nm for i, nm in enumerate(names) if keep[i]]
+        ctx.check(after == [expected], 'os.walk descends exactly into the folders the caller kept, in order')
+
+
+class C19d(Obligation):
+    id = 'C19.d'
+    title = 'search string: "type name.path" splits into the wanted type (def -> function) and the dotted names'
+    pattern = 'P1 over structured symbolic strings'
+    assumptions = ('the search string is [type " "] name ("." name)* with symbolic, space- and dot-free parts',)
+
+    def configs(self, tier):
+        return [dict(parts=k, typed=t) for k in (1, 2, 3) for t in (False, True)]
+
+    def scenario(self, ctx, cfg):
+        parts = [ctx.str('name%d' % i, exclude=' .\n') for i in range(cfg['parts'])]
+        dotted = parts[0]
+        for p in parts[1:]:
+            dotted = dotted + '.' + p
+        if cfg['typed']:
+            typ = ctx.str('type', exclude=' .\n')
+            string = typ + ' ' + dotted
+        else:
+            typ = ''
+            string = dotted
+        out = ctx.call(jhelpers.split_search_string, string)
+        ctx.check(out.exc is None, 'never raises')
+        if out.exc is not None:
+            return
+        wanted_type, names = out.value
+        exp_type = ctx.ite(typ == 'def', 'function', typ) if cfg['typed'] else ''
+        ctx.check(wanted_type == exp_type, 'type = text before the last space; "def" means function')
+        ctx.check(len(names) == len(parts) and ctx.And(*[names[i] == parts[i] for i in range(len(parts))]),
+                  'names = dotted components in order')
+
+
+OBLIGATIONS = [C19a, C19b, C19d, C19f]
